@@ -12,7 +12,8 @@ PID = "C01"
 TITLE = "Namespace-scope declarations are extracted faithfully"
 THEOREM_FILE = "Props/C01.v"
 MODELLED = ("modelled and proved: the declarator core (Parse/Declarator.v), the declarator loop of _parse_declarations for variables "
-            "(decl_list: one base type, ','-separated declarators, ';'), function declarations up to the ')' (fn_decl), the enumerator list "
+            "(decl_list: one base type, ','-separated declarators, ';'), the specifier loop of _parse_type and validate (Parse/Specs.v, tied by calling the real "
+            "_parse_type on token lists), whole variable statements (var_stmt), function declarations up to the ')' (fn_decl), the enumerator list "
             "(Parse/EnumList.v over _consume_value_until), and the collecting visitor as a fold over the block forest (Parse/Fold.v). "
             "NOT modelled (decided by the AST-first search only): the dispatch of CxxParser.parse / _parse_declarations / _parse_decl between the "
             "declaration forms, specifier collection and validation, functions and their tails (noexcept, throw, trailing return, bodies, "
@@ -360,11 +361,154 @@ def correspond_enums(ctx, corr):
             corr.disagreements.append(dict(case=dict(kind='corr-enum', tokens=toks), model=str(m)[:300], impl=str(r)[:300], what=msg))
 
 
+SPEC_KWS = ['const', 'volatile', 'constexpr', 'extern', 'inline', '__inline', '__forceinline', 'static', 'explicit', 'virtual', 'mutable']
+SPEC_STOPS = ['x', '*', '&', '&&', '(', ';', '=', '[', ',', ')', '3', '"C"', 'void', 'operator', '::', '<', '{']
+
+
+def real_specs(strs):
+    """the real _parse_type on a token list -> ('ok', name, flags(9), remaining) | ('err',)"""
+    toks = [impl.mk_tok(decl.tok_type(s), s) for s in strs]
+    p = impl.parser_over(toks)
+    try:
+        pt, mods = p._parse_type(None)
+    except (impl.CxxParseError, EOFError):
+        return ('err',)
+    except (AssertionError, IndexError, KeyError, AttributeError):
+        return ('other',)
+    if pt is None:
+        return ('other',)
+    segs = pt.typename.segments
+    if len(segs) != 1 or pt.typename.classkey or pt.typename.has_typename or getattr(segs[0], 'specialization', None) is not None or not hasattr(segs[0], 'name'):
+        return ('other',)
+    flags = (pt.const, pt.volatile, 'constexpr' in mods.both, 'extern' in mods.both, 'inline' in mods.both, 'static' in mods.both,
+             'explicit' in mods.meths, 'virtual' in mods.meths, 'mutable' in mods.vars)
+    return ('ok', segs[0].name, tuple(bool(f) for f in flags), len(p.lex.tokbuf))
+
+
+def correspond_specs(ctx, corr):
+    rng = ctx.rng
+    cases = []
+    for _ in range(ctx.scale(1500, 30000)):
+        pre = [rng.choice(SPEC_KWS) for _ in range(rng.choice([0, 0, 1, 2, 3, 5]))]
+        post = [rng.choice(SPEC_KWS) for _ in range(rng.choice([0, 0, 0, 1, 2]))]
+        name = rng.choice(['Foo', 'void', 'T'])
+        tail = [rng.choice(SPEC_STOPS)] + [rng.choice(SPEC_STOPS + SPEC_KWS) for _ in range(rng.choice([0, 1, 2]))]
+        toks = pre + [name] + post + tail
+        if rng.random() < 0.25:
+            toks = c02.mutate(rng, toks) or ['x']
+            toks = [t for t in toks if t not in ('...',)] or ['x']
+        if rng.random() < 0.15 and 'extern' in toks:
+            i = toks.index('extern')
+            toks.insert(i + 1, '"C"')
+        cases.append(toks)
+    lines, nms = [], []
+    for toks in cases:
+        names = decl.Names()
+        lines.append([88] + decl.enc_tokens(toks, names))
+        nms.append(names)
+    outs = run_driver(lines)
+    for toks, o, names in zip(cases, outs, nms):
+        corr.cases += 1
+        if o[0] == 0:
+            m = ('ok', 'void' if o[2] == 0 else names.rev.get(o[2], '?'), tuple(bool(x) for x in o[3:12]), o[1])
+        else:
+            m = ('err', o[1])
+        r = real_specs(toks)
+        key = "specs:" + m[0] + "/" + r[0]
+        corr.dist[key] = corr.dist.get(key, 0) + 1
+        if r[0] == 'other' or m == ('err', 4):          # code 4: outside the model (qualified / templated names)
+            continue
+        if (m[0] == 'ok') != (r[0] == 'ok') or (m[0] == 'ok' and m != r):
+            corr.disagreements.append(dict(case=dict(kind='corr-specs', tokens=toks), model=str(m), impl=str(r),
+                                           what="specifier loop on `%s`: model %s, implementation %s" % (' '.join(toks), m, r)))
+
+
+def real_stmt(text):
+    try:
+        d = parse_string(text)
+    except (impl.CxxParseError, AssertionError, RecursionError):
+        return ('err',)
+    ns = d.namespace
+    if ns.functions or ns.typedefs or ns.classes or ns.using_alias or ns.enums or ns.forward_decls or not ns.variables:
+        return ('other',)
+    out = []
+    flags = None
+    for v in ns.variables:
+        if v.value is not None or v.template or len(v.name.segments) != 1:
+            return ('other',)
+        f = (v.constexpr, v.extern, v.inline, v.static)
+        if flags is not None and f != flags:
+            return ('other',)
+        flags = f
+        try:
+            out.append((v.name.segments[0].name, decl.from_real(v.type)))
+        except decl.Unrepresentable:
+            return ('other',)
+    return ('ok', flags, out)
+
+
+def correspond_stmts(ctx, corr):
+    """whole variable statements with specifiers: var_stmt (specifier loop + validate + declarator loop) vs parse_string"""
+    rng = ctx.rng
+    cases = []
+    for _ in range(ctx.scale(800, 16000)):
+        toks, items = gen_decl_stmt(rng)
+        base_len = len(decl.base_tokens(decl.layers(items[0][1])[0]))
+        base = toks[:base_len]
+        rest = toks[base_len:]
+        kws = ['constexpr', 'extern', 'inline', 'static', 'const', 'volatile'] + (['explicit', 'virtual', 'mutable', '__inline'] if rng.random() < 0.15 else [])
+        pre = [rng.choice(kws) for _ in range(rng.choice([0, 1, 1, 2, 3]))]
+        post = [rng.choice(['const', 'volatile', 'static', 'constexpr']) for _ in range(rng.choice([0, 0, 0, 1]))]
+        name_i = [i for i, t in enumerate(base) if t not in ('const', 'volatile')][0]
+        stmt = pre + base[:name_i + 1] + post + base[name_i + 1:] + rest
+        cases.append((stmt, len(items)))
+        if rng.random() < 0.3:
+            mt = c02.mutate(rng, stmt[:-1]) + [';']
+            cases.append((mt, mt.count(',') + 1))
+    lines, nms = [], []
+    for toks, n in cases:
+        names = decl.Names()
+        lines.append([89, n] + decl.enc_tokens(toks, names))
+        nms.append(names)
+    outs = run_driver(lines)
+    for (toks, n), o, names in zip(cases, outs, nms):
+        corr.cases += 1
+        if o[0] == 0:
+            rest, k = o[1], o[2]
+            fl = [bool(x) for x in o[3:12]]
+            i = 12
+            items = []
+            for _ in range(k):
+                ln = o[i + 1]
+                t, _j = decl.dec_type(o, i + 2, names)
+                items.append((names.rev.get(o[i], '?'), t))
+                i += 2 + ln
+            m = ('ok', (fl[2], fl[3], fl[4], fl[5]), items, rest)
+        else:
+            m = ('err', o[1])
+        r = real_stmt(' '.join(toks))
+        key = "stmt:" + (m[0] if m[0] == 'ok' else 'err%d' % m[1]) + "/" + r[0]
+        corr.dist[key] = corr.dist.get(key, 0) + 1
+        msg = None
+        if m[0] == 'ok' and m[3] == 0:
+            if r[0] == 'err':
+                msg = "model decodes the statement but the implementation rejects it"
+            elif r[0] == 'ok' and (r[1], r[2]) != (m[1], m[2]):
+                msg = "model %s %s; implementation %s %s" % (m[1], m[2], r[1], r[2])
+        elif m[0] == 'err' and m[1] in (1, 2, 3) and r[0] == 'ok':
+            msg = "model rejects (code %d) but the implementation reports %s" % (m[1], r[2])
+        if msg:
+            corr.disagreements.append(dict(case=dict(kind='corr-stmt', tokens=toks, n=n), model=str(m)[:300], impl=str(r)[:300],
+                                           what="variable statement `%s`: %s" % (' '.join(toks), msg)))
+
+
 def correspond(ctx):
     corr = Corr()
     rng = ctx.rng
+    correspond_stmts(ctx, corr)
     correspond_fns(ctx, corr)
     correspond_enums(ctx, corr)
+    correspond_specs(ctx, corr)
     cases, metas = [], []
     for _ in range(ctx.scale(1200, 25000)):
         toks, items = gen_decl_stmt(rng)
@@ -535,6 +679,14 @@ def search(ctx, boost=False):
 
 def replay(ctx, case):
     k = case.get("kind")
+    if k == 'corr-specs':
+        names = decl.Names()
+        o = run_driver([[88] + decl.enc_tokens(case["tokens"], names)])[0]
+        m = ('ok', 'void' if o[2] == 0 else names.rev.get(o[2], '?'), tuple(bool(x) for x in o[3:12]), o[1]) if o[0] == 0 else ('err', o[1])
+        r = real_specs(case["tokens"])
+        if r[0] != 'other' and m != ('err', 4) and ((m[0] == 'ok') != (r[0] == 'ok') or (m[0] == 'ok' and m != r)):
+            return ["specifier loop: model %s, implementation %s" % (m, r)]
+        return []
     if k == 'corr-enum':
         m = model_enums([case["tokens"]])[0]
         r = real_enum('enum E { ' + ' '.join(case["tokens"]))
